@@ -14,6 +14,21 @@
 (* numbering escapes included) recovers what the writer meant, header       *)
 (* tables tile, every section name is a string of the name table, and       *)
 (* lookup by name agrees with enumeration.                                  *)
+(*                                                                         *)
+(* Machine-scoped names (Elf!Scoped): an aliased code means what the        *)
+(* machine at hand says it means.  EI_OSABI codes 64..255 are architecture  *)
+(* specific (gABI): on EM_ARM 64 is ELFOSABI_ARM_AEABI and nothing else, on  *)
+(* EM_AMDGPU ELFOSABI_AMDGPU_HSA, on EM_TI_C6000 ELFOSABI_C6000_ELFABI; on a *)
+(* machine that owns no name of the code every registered name (or the raw  *)
+(* integer) stays admissible - a flat OS ABI table is not faulted there.    *)
+(* The sweep crosses OS ABI codes with machines; sh_type/p_type codes that a *)
+(* processor names are scoped the same way against the generic LOPROC       *)
+(* marker.  `scope` in the emitted case carries the scoped sets; TLC checks  *)
+(* ScopeSound and the overlay table against the registry (ASSUME).          *)
+(* Extended numbering: section counts 0xfeff, 0xff00, 0xff01, 0x10000,      *)
+(* 0x10001, 70003 - real headers AT the reserved indices 0xff00..0xffff     *)
+(* (name table at 0xff00 / 0xffff / 0x10000); `probes` names the filler     *)
+(* indices around the reserved range every reader must still resolve.       *)
 (***************************************************************************)
 EXTENDS Elf, TLC, Json, CSV, IOUtils
 
@@ -97,12 +112,17 @@ AllPtNames == UNION {RegFam["PT"][f] : f \in DOMAIN RegFam["PT"]}
 SweepMachines == {Code("EM_X86_64"), Code("EM_ARM"), Code("EM_AARCH64"), Code("EM_MIPS"), Code("EM_RISCV"), Code("EM_386")}
 NumVals(cls) == {Z, N(1), W(<<0, 0, 0, 128>>), W(<<255, 255, 255, 255>>)} \cup
                 (IF cls = 64 THEN {W(<<0, 0, 0, 0, 0, 0, 0, 128>>), W(<<255, 255, 255, 255, 255, 255, 255, 255>>)} ELSE {})
+OsabiMachines == {OsabiOverlay[i][1] : i \in 1..Len(OsabiOverlay)} \cup {Code("EM_386"), Code("EM_X86_64"), Code("EM_AARCH64"), Code("EM_MIPS"), 4660}
+OsabiCodes == {o \in {NatOf(d) : d \in RegCodes(Fam("ELFOSABI", "BASE"))} : o >= 64} \cup {67, 96, 98, 200, 254} \cup {0, 3, 9}
 SweepSet ==
   \* e_machine: every registry machine (values fit a half)
   {<<"e_machine", [Base(<<64, TRUE>>, NatOf(d)) EXCEPT !.secs = <<OneSec(N(1))>>]>> : d \in RegCodes(Fam("EM", "BASE"))}
   \cup {<<"e_machine", [Base(<<32, FALSE>>, m) EXCEPT !.secs = <<OneSec(N(1))>>]>> : m \in {0, 255, 65535, 4660}}
   \* OS ABI and ABI version
   \cup {<<"osabi", [Base(<<32, TRUE>>, 3) EXCEPT !.osabi = o, !.abiver = (o * 7) % 256]>> : o \in {NatOf(d) : d \in RegCodes(Fam("ELFOSABI", "BASE"))} \cup {5, 200}}
+  \* OS ABI x machine: codes of the architecture-specific range 64..255 (every registry code there, neighbours, unassigned ones; three
+  \* generic codes as controls) under the machines that own names there, machines that own none, and an unassigned machine code
+  \cup {<<"osabi", [Base(cl, m) EXCEPT !.osabi = o, !.abiver = (o * 3) % 256]>> : cl \in ClsLe, m \in OsabiMachines, o \in OsabiCodes}
   \* e_type incl. OS/processor ranges and unassigned codes
   \cup {<<"e_type", [Base(cl, 62) EXCEPT !.etype = N(t)]>> : cl \in ClsLe, t \in {0, 1, 2, 3, 4, 5, 65024, 65279, 65280, 65535, 4660}}
   \* e_version / entry / flags
@@ -158,6 +178,10 @@ XnumSet ==
       [Base(<<64, FALSE>>, 62) EXCEPT !.secs = <<MkSec("text", 64, 0)>>, !.nfill = 65276],                 \* 0xfeff sections: no escape
       [Base(<<64, TRUE>>, 183) EXCEPT !.secs = <<MkSec("bss", 64, 0)>>, !.nfill = 65277, !.strfirst = TRUE], \* shnum escape only (name table at index 1)
       [Base(<<32, FALSE>>, 8) EXCEPT !.secs = <<MkSec("text", 32, 0)>>, !.nfill = 70000, !.shextra = 8],
+      \* more than 0xff00 sections: real headers at the reserved indices SHN_LORESERVE..SHN_HIRESERVE and above
+      [Base(<<32, FALSE>>, 40) EXCEPT !.secs = <<MkSec("bss", 32, 0)>>, !.nfill = 65278],                   \* 0xff01 sections, name table AT 0xff00 (SHN_LORESERVE)
+      [Base(<<64, TRUE>>, 62) EXCEPT !.secs = <<MkSec("text", 64, 0)>>, !.nfill = 65533],                   \* 0x10000 sections, name table at 0xffff (= SHN_XINDEX itself)
+      [Base(<<32, TRUE>>, 3) EXCEPT !.secs = <<MkSec("note", 32, 0)>>, !.nfill = 65534],                    \* 0x10001 sections, name table at 0x10000
       [Base(<<64, TRUE>>, 62) EXCEPT !.segs = <<MkSeg("load", 64)>>, !.pfill = 65534],                     \* 0xffff segments: PN_XNUM
       [Base(<<32, TRUE>>, 40) EXCEPT !.segs = <<MkSeg("load", 32)>>, !.pfill = 65533],                     \* 0xfffe segments: no escape
       [Base(<<32, FALSE>>, 3) EXCEPT !.segs = <<MkSeg("gnu", 32)>>, !.pfill = 66000, !.phextra = 8, !.nfill = 65300] } }
@@ -203,7 +227,24 @@ Next == Finish \/ (\E k \in SecKinds : AddSection(k)) \/ (\E k \in SegKinds : Ad
 Spec == Init /\ [][Next]_vars
 
 (* ------------------------------ emission ------------------------------- *)
-Emit == done => CSVWrite("%1$s", <<ToJson([tag |-> tag, chunks |-> Chunks(im), view |-> View(im)])>>, IOEnv.OUT)
+\* machine-scoped names: EI_OSABI always; section / segment types only where scoping narrows the wide set of Elf!View (<<index, names>>)
+Scope ==
+  LET ex == ExplicitShdrs(im)   fam == MachFam(im.machine) IN
+  [osabi |-> OsabiNamesOf(im.machine, N(im.osabi)),
+   sh |-> IF fam = "NONE" THEN {} ELSE
+          UNION {LET t == ex[i][2].sh_type IN
+                 IF ByFam("SHT", fam, t) = {} \/ ShtScopedNamesOf(im.machine, t) = ShtNamesOf(im.machine, t) THEN {}
+                 ELSE {<<ex[i][1], ShtScopedNamesOf(im.machine, t)>>} : i \in 1..Len(ex)},
+   ph |-> IF fam = "NONE" THEN {} ELSE
+          UNION {LET t == im.segs[j].type IN
+                 IF ByFam("PT", fam, t) = {} \/ PtScopedNamesOf(im.machine, t) = PtNamesOf(im.machine, t) THEN {}
+                 ELSE {<<j - 1, PtScopedNamesOf(im.machine, t)>>} : j \in 1..Len(im.segs)}]
+\* filler indices at and around the reserved index range (SHN_LORESERVE 0xff00 .. SHN_HIRESERVE 0xffff; SHN_ABS 0xfff1, SHN_COMMON 0xfff2,
+\* SHN_XINDEX 0xffff) and around PN_XNUM (0xffff): positions in the tables like any other
+ReservedProbe == {65279, 65280, 65281, 65521, 65522, 65534, 65535, 65536, 65537}
+Probes == [sec |-> IF im.nosht THEN {} ELSE {i \in ReservedProbe : FillFrom(im) <= i /\ i < FillFrom(im) + im.nfill},
+               seg |-> {i \in ReservedProbe : Len(im.segs) <= i /\ i < NSeg(im)}]
+Emit == done => CSVWrite("%1$s", <<ToJson([tag |-> tag, chunks |-> Chunks(im), view |-> View(im), scope |-> Scope, probes |-> Probes])>>, IOEnv.OUT)
 
 (* ------------------------------ properties ----------------------------- *)
 \* (evaluated on finished images; TLC checks them for every behaviour of the writer)
@@ -224,4 +265,25 @@ LookupAgrees ==
   done => LET v == View(im) IN
           \A i \in 1..Len(v.sections) :
              \E j \in 1..Len(v.sections) : v.sections[j].name = v.sections[i].name /\ v.sections[j].index >= v.sections[i].index
+\* the overlay table agrees with the registry: machine codes, every name registered with a code of the architecture-specific range,
+\* no name owned by two machines, no two names of one machine on one code (so a scoped set is a single name)
+ASSUME /\ {OsabiOverlay[i][1] : i \in 1..Len(OsabiOverlay)} = {Code("EM_ARM"), Code("EM_AMDGPU"), Code("EM_TI_C6000")}
+       /\ \A i \in 1..Len(OsabiOverlay) : \A n \in OsabiOverlay[i][2] :
+             /\ n \in Fam("ELFOSABI", "BASE") /\ NatOf(Reg[n]) \in 64..255
+             /\ \A j \in 1..Len(OsabiOverlay) : j # i => n \notin OsabiOverlay[j][2]
+             /\ \A n2 \in OsabiOverlay[i][2] : n2 # n => Reg[n2] # Reg[n]
+\* scoping only ever narrows, never below the machine's own names, never for the generic codes, and a name another machine owns
+\* survives only where the machine at hand owns no name of the code
+ScopeSound ==
+  done => LET all == ByFam("ELFOSABI", "BASE", N(im.osabi))   sc == Scope IN
+          /\ sc.osabi \subseteq all /\ (all # {} => sc.osabi # {})
+          /\ (im.osabi < 64 => sc.osabi = all)
+          /\ (sc.osabi # all => sc.osabi \subseteq OsabiSpecific(im.machine) /\ Cardinality(sc.osabi) = 1)
+          /\ \A i \in 1..Len(OsabiOverlay) :
+                (OsabiOverlay[i][1] # im.machine /\ sc.osabi \cap OsabiOverlay[i][2] # {}) => all \cap OsabiSpecific(im.machine) = {}
+          /\ \A x \in sc.sh : x[2] # {} /\ x[2] \subseteq Fam("SHT", MachFam(im.machine))
+          /\ \A x \in sc.ph : x[2] # {} /\ x[2] \subseteq Fam("PT", MachFam(im.machine))
+\* probes are filler positions of the tables
+ProbesInTables ==
+  done => LET p == Probes IN (\A i \in p.sec : i < NSec(im)) /\ (\A i \in p.seg : i < NSeg(im))
 =============================================================================
